@@ -66,6 +66,9 @@ type scen struct {
 	boundary bool     // block-limit boundary content: the first block must be made at view 0, without any ChangeView, and hold exactly expect
 	expect   []string // catalogue names the first block must hold (boundary scenarios)
 	maxSil   int      // f
+	split    bool     // scenario of the split family (ext_recovery_test.go): not part of the deviation levels
+	prim     int      // split: primary index of the first height
+	deep     bool     // split: explored by the split family in the thorough tier only
 }
 
 // Replay artefact / violation detail.
@@ -80,6 +83,7 @@ type caseRec struct {
 	AtStep   int          `json:"at_step"`
 	Text     string       `json:"text"`
 	Log      []string     `json:"log,omitempty"`
+	Split    *splitSpec   `json:"split,omitempty"` // split family: the scripted prefix the events came from
 }
 
 type problem struct {
@@ -103,6 +107,7 @@ type result struct {
 	MaxLive   int // longest default continuation that was needed to commit the next block everywhere
 	CarryOK   int
 	BlockSize int
+	PrefixLen int // events of the scripted prefix (split families)
 }
 
 // visited maps state digest -> fewest deviations it was reached with.
@@ -122,6 +127,7 @@ func (v *visited) visit(d string, devs int) (seenBetter bool) {
 }
 
 const (
+	prefixCap  = 200 // longest scripted prefix (events)
 	liveBound4 = 160 // default-schedule steps allowed to commit the next block on all nodes (N=4)
 	liveBound7 = 520 // N=7
 )
@@ -131,6 +137,12 @@ type runOpts struct {
 	vis      *visited // nil: no pruning
 	explicit []netx.Event
 	keepLog  bool
+	// prefix (ext_recovery_test.go): a scripted adversarial prefix. It is asked
+	// for the next event until it answers more=false; its events count as
+	// deviations (liveness is demanded of the states after the prefix only).
+	prefix func(w *netx.World) (ev *netx.Event, more bool)
+	// after is evaluated on the state after every applied event (extra oracles).
+	after func(w *netx.World) []netx.Problem
 }
 
 // run executes one schedule inside its own bubble.
@@ -139,6 +151,9 @@ func run(t *testing.T, sc *scen, s Sched, o runOpts) (res *result) {
 	liveBound := liveBound4
 	if sc.setup.Fam.N > 4 {
 		liveBound = liveBound7
+	}
+	if o.after == nil && sc.split {
+		o.after = newConformer(newConfStats()).check // replays
 	}
 	body := func(t *testing.T) {
 		t0 := realNano()
@@ -177,19 +192,30 @@ func run(t *testing.T, sc *scen, s Sched, o runOpts) (res *result) {
 		mn, mx := w.Heights()
 		hist = append(hist, obs{mn, mx, w.AnySilent()})
 		di := 0
-		limit := lastAt + 1 + liveBound*sc.Heights
+		prefixing := o.prefix != nil && o.explicit == nil
 		seenCommit := 0
 		res.End = "limit"
-		for step := 0; step < limit; step++ {
+		for step := 0; step < lastAt+1+liveBound*sc.Heights; step++ {
 			mn, _ := w.Heights()
-			if mn >= target && step > lastAt {
+			if mn >= target && step > lastAt && !prefixing {
 				res.End = "done"
 				break
 			}
 			def := w.Default()
 			var ev netx.Event
 			isDev := false
+			if prefixing {
+				pe, more := o.prefix(w)
+				if !more || pe == nil || step >= prefixCap {
+					prefixing = false
+					res.PrefixLen = step
+					step--
+					continue
+				}
+				ev, isDev, lastAt = *pe, true, step
+			}
 			switch {
+			case isDev:
 			case o.explicit != nil && step < len(o.explicit):
 				ev, isDev = o.explicit[step], true
 			case di < len(s.Devs) && s.Devs[di].At == step:
@@ -217,6 +243,9 @@ func run(t *testing.T, sc *scen, s Sched, o runOpts) (res *result) {
 			res.Events = append(res.Events, ev)
 			res.Steps++
 			add(step, w.CheckSafety())
+			if o.after != nil {
+				add(step, o.after(w))
+			}
 			// carry oracle on new submissions
 			for ; seenCommit < len(w.Commits); seenCommit++ {
 				c := w.Commits[seenCommit]
@@ -487,6 +516,26 @@ func scenarios(r *vk.Run, dir string) ([]*scen, error) {
 			}
 		}
 	}
+	// Rotation: the base exploration starts with primary 0 (then 1). One height
+	// with each of the other validators as primary (pad blocks slide it), bound 1;
+	// a view change there makes primary-1 the speaker.
+	for pad := 1; pad < 4 && pad <= len(fam4.Pads); pad++ {
+		prim := (int(fam4.H0) + pad + 1) % 4
+		out = append(out, &scen{setup: fam4, maxBound: 1, maxSil: 1, Scenario: netx.Scenario{
+			Name: fmt.Sprintf("n4-rot:primary%d", prim), Family: "n4", Heights: 1, Pad: pad,
+			TxAt: map[string][]int{"t0": {prim}, "t2": all4, "t3": {(prim + 2) % 4}, "t4": {(prim + 2) % 4}},
+		}})
+	}
+	// The split family (ext_recovery_test.go): one scenario per primary index.
+	out = append(out, splitScens(fam4, "", vk.Pick(r, 2, 3))...)
+	fam4S, err := netx.NewSetup(netx.Family{Name: "n4S", N: 4, SRIH: true}, dir)
+	if err != nil {
+		return nil, err
+	}
+	for _, sc := range splitScens(fam4S, ":srih", vk.Pick(r, 2, 3)) {
+		sc.deep = true // quick: only the recovery-algebra family uses them
+		out = append(out, sc)
+	}
 	if r.Thorough() || os.Getenv("C19_N7") != "" {
 		fam7, err := netx.NewSetup(netx.Family{Name: "n7", N: 7}, dir)
 		if err != nil {
@@ -571,6 +620,27 @@ func TestCheck(t *testing.T) {
 		fmt.Println("probe:", s.Compact(), res.End, res.Err)
 		os.Exit(0)
 	}
+	if one := os.Getenv("C19_SPLIT"); one != "" {
+		// development aid: one scripted prefix (JSON splitSpec), verbose
+		var sp splitSpec
+		if err := json.Unmarshal([]byte(one), &sp); err != nil {
+			fmt.Println(err)
+			os.Exit(3)
+		}
+		sc := scenByName(scs, splitScenName(sp.Prim)+os.Getenv("C19_SPLIT_TAG"))
+		res, pol, cf := runSplit(t, sc, sp, newConfStats())
+		for _, l := range res.Log {
+			fmt.Println("   ", l)
+		}
+		for _, l := range res.Warns {
+			fmt.Println("    warn:", l)
+		}
+		for _, p := range res.Problems {
+			fmt.Println("    PROBLEM:", p.Oracle, p.Step, p.Text)
+		}
+		fmt.Println("    split:", sp.String(), "end:", res.End, res.Err, "prefix:", res.PrefixLen, "events:", res.Steps, "blocks:", res.Blocks, "maxlive:", res.MaxLive, "seen:", kindString(pol.seen), "recovery msgs:", cf.nRec, "cvs:", cf.nCV)
+		os.Exit(0)
+	}
 	inflight := filepath.Join(dir, "inflight")
 	_ = os.MkdirAll(inflight, 0o755)
 
@@ -620,7 +690,24 @@ func TestCheck(t *testing.T) {
 		level[sc.Name] = []Sched{{Scen: sc.Name}}
 	}
 	boundaryRuns := 0
+	var splitCov, algebraCov map[string]any
 	for b := 0; b <= 2; b++ {
+		if b == 1 && os.Getenv("C19_FAMILIES") != "off" {
+			// the recovery class (directed families; they always run, whatever level 0 found)
+			algebraCov = exploreAlgebra(t, r, scs)
+			fmt.Printf("C19: recovery-algebra family: %v cases, %.0fs elapsed\n", algebraCov["cases"], r.Elapsed())
+			splitCov = exploreSplits(t, r, scs, &running)
+			fmt.Printf("C19: split family: %v of %v specs run (%v identical to a smaller mask), %.0fs elapsed\n", splitCov["specs_run"], splitCov["specs_enumerated"], splitCov["specs_skipped_as_identical"], r.Elapsed())
+			if n, ok := splitCov["specs_run"].(int); ok {
+				schedules.Add(n) // every scripted run is an execution of the real code under all oracles
+			}
+			if n, ok := splitCov["events"].(int); ok {
+				transitions.Add(n)
+			}
+			if os.Getenv("C19_FAMILIES") == "only" { // development aid
+				break
+			}
+		}
 		// all scenarios' schedules with exactly b deviations
 		type job struct {
 			sc *scen
@@ -705,7 +792,7 @@ func TestCheck(t *testing.T) {
 		fmt.Printf("C19: deviation level %d: %d of %d schedules run, %.0fs elapsed\n", b, done, len(jobs), r.Elapsed())
 		if done == len(jobs) && !r.IsCapped() {
 			for _, sc := range scs {
-				if b <= sc.maxBound {
+				if b <= sc.maxBound && !sc.split {
 					completed[sc.Name] = b
 				}
 			}
@@ -758,6 +845,10 @@ func TestCheck(t *testing.T) {
 	var boundaryNames []string
 	boundaryDone := 0
 	for _, sc := range scs {
+		if sc.split {
+			delete(completed, sc.Name)
+			continue
+		}
 		if sc.boundary {
 			boundaryNames = append(boundaryNames, sc.Name)
 			if _, ok := completed[sc.Name]; ok {
@@ -796,6 +887,8 @@ func TestCheck(t *testing.T) {
 		"boundary_limits":                  map[string]int{"MaxBlockSystemFee": netx.LimMaxBlockSystemFee, "MaxBlockSize": netx.LimMaxBlockSize, "MaxTransactionsPerBlock": netx.LimMaxTxPerBlock},
 		"boundary_rule":                    "families n4lim / n4limS (StateRootInHeader): every validator pools the same content; contents: total system fee limit-1 / = / +1, single tx = limit, tx count limit-1 / = / +1, packed block size limit-1 / = / +1; x every primary (0..3 pad blocks); default schedule only; oracle: no ChangeView at all, block at view 0 holding exactly the limit-respecting prefix, serialised block within the limits",
 		"n7_status":                        n7,
+		"family_split":                     splitCov,
+		"family_recovery_algebra":          algebraCov,
 		"liveness_step_bound":              map[string]int{"N=4": liveBound4, "N=7": liveBound7},
 		"liveness_max_steps_observed":      int(maxLive.Load()),
 		"worker_seconds_setup_steps_close": []float64{float64(tSetup.Load()) / 1e9, float64(tSteps.Load()) / 1e9, float64(tClose.Load()) / 1e9},
@@ -823,6 +916,24 @@ func replay(t *testing.T, r *vk.Run, scs []*scen) {
 	if err := r.ReadReplay(&c); err != nil {
 		fmt.Println("cannot read replay:", err)
 		os.Exit(3)
+	}
+	if c.Oracle == "recovery-algebra" {
+		for i := 0; i < 5; i++ {
+			res, _ := algebraAll(t, nil, scs)
+			found := false
+			for _, p := range res.problems {
+				if p.Schedule == c.Schedule {
+					found = true
+					fmt.Printf("replay %d: REPRODUCED %s: %s\n", i, p.Schedule, p.Text)
+					r.Violation("replay:recovery-algebra:"+c.Schedule, p)
+				}
+			}
+			if !found {
+				fmt.Printf("replay %d: no violation for case %s (%d cases, %d failing)\n", i, c.Schedule, res.cases, len(res.problems))
+			}
+		}
+		r.Finish(map[string]any{"states": 1, "transitions": 5, "traces_validated_against_impl": 5}, nil)
+		return
 	}
 	sc := scenByName(scs, c.Scenario)
 	if sc == nil {
